@@ -61,7 +61,8 @@ PROPS["C03"] = dict(
           "close x attach (5 orderings incl. attach-after-close), C Remove x RemoveAndCloseAll (2), D converter Close x converter loop "
           "(3 orderings x rtp demuxer|flv muxer|ts muxer), F source of a retired stream ends, each repeated; service part: clients on rtsp-tcp/ws-rtsp/wsp/http-flv/ws-flv/rtsp-udp x stream end by publisher disconnect/replacement/REST delete/UnregistAll; E concurrent random histories (2-4 workers, 1-3 streams, "
           "attach/stop/publish/close/replace) with seeded delays at 14 hook points. A case is distinct by its scenario name / history shape"
-          " Service scenario replaced-then-old-consumers-stop: a second publisher displaces a stream that stays alive (its publisher is connected, six clients attached); the old stream's clients stop one by one and must be released from the OLD stream while two clients of the NEW stream keep receiving"),
+          " Service scenario replaced-then-old-consumers-stop: a second publisher displaces a stream that stays alive (its publisher is connected, six clients attached); the old stream's clients stop one by one and must be released from the OLD stream while two clients of the NEW stream keep receiving"
+          ' The service part attaches two multicast members as well (their RTSP sessions must be closed when the stream ends)'),
     level_text=("Schedule exploration of the real media package: every named two-party ordering is forced deterministically with gates and "
                 "observed, plus perturbed concurrent histories; oracle = close-exactly-once ledger, consumer count, goroutine enter/exit "
                 "ledger, goroutine-profile state (parked in sync.Cond.Wait with no possible waker = violation; else inconclusive)"),
@@ -101,7 +102,8 @@ PROPS["C01"] = dict(
           "class, consumer count)"
           ' Transports part: one stream is played over rtsp-tcp, ws-rtsp, wsp, rtsp-udp, multicast (shard 0), http-flv and ws-flv at once; the published sequence contains a back-to-back burst of 48 packets of 9-15 KB (more than the session write buffer within one flush tick); a torn interleaved byte stream is reported as such'
           ' Multicast: an earlier member plays and leaves before the judged member joins (the proxy is restarted per generation); an attached datagram consumer that is given nothing at all is a violation'
-          ' Control channel: sender reports are published on the video control channel and must arrive intact on the negotiated RTCP destination of the RTSP/TCP and RTSP/UDP players (the UDP player binds its RTCP socket below its RTP port in even runs)'),
+          ' Control channel: sender reports are published on the video control channel and must arrive intact on the negotiated RTCP destination of the RTSP/TCP and RTSP/UDP players (the UDP player binds its RTCP socket below its RTP port in even runs)'
+          ' A companion multicast member of the same generation joins before the judged member and leaves in the middle of the publication: the judged member must go on receiving'),
     level_text=("Recorded-history monitor over the real fan-out path: at-most-once, publish order, byte identity (hash at publish vs hash at "
                 "delivery vs hash after the run), completeness over the attached interval, 1-vs-N independence"),
     level_note=("core (media package) part; per-transport delivery (RTSP/TCP, UDP, ws-rtsp, WSP, HTTP-FLV) is exercised at service level by "
